@@ -18,4 +18,14 @@ PROPS = {
             "'valid' is relative to the clock at offer time; every generated entry is validly signed and within the future bound",
         ],
     },
+    "C05": {
+        "lean_modules": ["DocsModel.Props.C05"],
+        "trusted_base": COMMON_TRUST + [
+            "redb tables are modelled as sorted lists whose range() is the in-order filter by the bounds (element-wise tuple comparison, lexicographic byte strings); redb itself is not verified",
+        ],
+        "assumptions": [
+            "namespace and author ids are 32 bytes (what the crate's types guarantee)",
+            "the equation query = spec for every TablesInv state is validated by the correspondence check (model line and specification line per query); the Lean file proves the window law, the filter predicates, exactness of the prefix scan bounds and the selector's no-invention law",
+        ],
+    },
 }
